@@ -31,6 +31,12 @@ Pipeline
      deviations whose signature is an open known finding are reported as KNOWN-FINDING;
  (4) replay of the repaired defects (F15d: fixes/f15d_*.py; the unknown/empty subcommand name: fixes/f17n_*.py and its witness;
      a repaired defect that fails again is a VIOLATION) and of the open findings' witnesses.
+Session 2 added: (2d) `sources_stage`: the real `ActionConfigFile.apply_config` on generated documents vs the predicates of the new
+     theorems (`loses`, `quietDeep`, `loadCfgArg`; driver op "losses"); (2e) `construction_stage`: what `wf` assumes is what
+     add_subcommands/add_subcommand enforce (second call rejected, name == dest rejected, level order, aliases as further keys);
+     (3') the dump of every accepted result is parsed again by the same parser: same selection, same settings (`reparse_devs`; deviations
+     inside the signature of the open finding C17-dump-reparse-selects-other are KNOWN-FINDING); the generator produces ALIASES
+     (a further entry of "choices" marked {"alias_of": name}).
 """
 from __future__ import annotations
 
@@ -48,21 +54,31 @@ from ..lib.common import Ctx, MachineryError, repo_python_path
 MANIFEST = {
     "engine": "Subcmd",
     "technique": "Lean 4 proof by structural induction on the parser tree over a transcription of get_subcommands / handle_subcommands / "
-                 "apply_parsing_links / check_required / the argv action + regenerated statement shape (tie theorems) + differential correspondence on "
-                 "captured, direct, exhaustive and whole-pipeline calls + independent reference oracle",
+                 "apply_parsing_links / check_required / the argv action / apply_config / get_defaults / _load_env_vars + regenerated statement shape "
+                 "and complete statement lists of the anchored functions (tie theorems) + differential correspondence on captured, direct, exhaustive, "
+                 "whole-pipeline and single-source calls + independent reference oracle incl. the re-parse of the dump",
     "text": "Theorems in lean/Jap/Props/C17.lean prove, for parser trees of any depth and any merged configuration, that a successful final "
             "_parse_common stores at every level the chosen subcommand under the subcommand key, its section, and no section of another subcommand, "
             "that the section holds the given values over the sub-parser's environment over its defaults, that the choice is the name written on "
             "the command line, else the name found in the merged sources, else the first subcommand in declaration order that has settings, and that "
-            "an undeterminable required subcommand is an error at any depth while an optional one leaves no key and no section; the full statement "
-            "is refuted on witnesses where the code deviates (empty subcommand name; a source that selects on its own before it is merged) and "
-            "proved under the forced decidable hypotheses. The model is tied to the code by regenerating the anchored statements into "
-            "Gen/SubcmdShape (tie theorems), by replaying every get_subcommands/handle_subcommands call that real parses make, by direct and "
-            "exhaustive small-scope calls of the static methods, and by comparing whole parse results; the property itself is evaluated on the real "
-            "results by a reference written from the property text.",
+            "an undeterminable required subcommand is an error at any depth while an optional one leaves no key and no section; exactly-one also for "
+            "the whole parse_args of the model (any command line, any number and order of options and config documents). The open findings are "
+            "characterised EXACTLY inside the model (which section a source loses while it is loaded on its own; what the subcommand variable of the "
+            "environment copies; which term of the parent_parsers stack leaks) and their complements are proved: a source that at no depth both names "
+            "a subcommand and holds several sections is taken verbatim, the command line is then the precedence fold of its items (later over earlier), "
+            "the result is exactly-one/complete/chosen relative to that fold, and the choice is the name of the last source that names one; a result "
+            "written without its subcommand keys (dump) selects the same subcommand again when defaults/environment neither name nor configure "
+            "another one. The model is tied to the code by regenerating the anchored statements and the complete statement lists of get_subcommands, "
+            "get_subcommand, handle_subcommands, add_subcommand, add_subcommands into Gen/SubcmdShape (tie theorems), by replaying every "
+            "get_subcommands/handle_subcommands call that real parses make, by direct and exhaustive small-scope calls, by comparing whole parse "
+            "results, and by evaluating the predicates of the new theorems against the real apply_config; the property itself is evaluated on the "
+            "real results (aliases, dest=, required=False, three levels included) and on the re-parse of their dump by a reference written from the "
+            "property text.",
     "level_note": "Trusted: Lean kernel; axioms propext/Quot.sound/Classical.choice only; the correspondence harness and its recorder; argparse "
                   "tokenisation (which subcommand name was written where) and the typed option actions are outside the model; dotted keys are read "
-                  "as paths in a tree (C11). Precedence among default config files and environment of different levels is left to C04.",
+                  "as paths in a tree (C11). Precedence among default config files and environment of different levels is left to C04. Trees with "
+                  "aliases are run without environment parsing and default config files (variable names and stack keys follow the NAME). The "
+                  "serialisation of dump (YAML text) is outside the model: the re-parse theorem speaks of the result without its subcommand keys.",
 }
 
 F_EARLY = "C17-early-selection-drops-settings"
@@ -70,11 +86,15 @@ F_FALSY = "C17-falsy-subcommand-name"
 F_LEAK = "C17-env-default-config-leak"
 F_ENVNAME = "C17-env-named-subcommand-resets-defaults"
 F_MAPPING = "C17-parse-env-mapping-not-handed-on"
+F_REPARSE = "C17-dump-reparse-selects-other"
 
 OPT_NAMES = ["alpha", "beta", "gamma", "delta", "kappa", "omega"]
 # "items" and "update" are attribute names of Namespace: stored under the clash-marked name (C11), looked up by plain name
 SUB_NAMES = ["fit", "test", "run", "eval", "sync", "list", "items", "update"]
 DESTS = ["subcommand", "cmd", "mode"]
+# aliases (`add_subcommand(name, parser, aliases=(...))`): a further key of the name-parser map for the SAME parser.  In a spec an
+# alias is a further entry of "choices", directly after its name, whose sub-spec is a copy marked {"alias_of": name}
+ALIASES = {"fit": "f", "test": "t", "run": "r", "eval": "e", "sync": "s", "list": "l", "items": "i", "update": "u"}
 
 _TMP = []
 
@@ -152,7 +172,7 @@ def gen_cfg_tree(rng, spec, p_opt=0.5, p_name=0.3, p_sec=0.5, multi=0.35, depth=
     return t
 
 
-def gen_parser(rng, levels, level=0, p_dcf=0.2):
+def gen_parser(rng, levels, level=0, p_dcf=0.2, p_alias=0.0):
     opts = [[n, rng.randint(1, 99)] for n in rng.sample(OPT_NAMES, rng.choice([0, 1, 1, 2, 2, 3]))]
     spec = {"opts": opts, "cfg": rng.random() < 0.45, "dcf": None, "sub": None}
     if levels > 0:
@@ -161,15 +181,34 @@ def gen_parser(rng, levels, level=0, p_dcf=0.2):
         choices = []
         for i, n in enumerate(names):
             sub_levels = levels - 1 if (i == 0 or rng.random() < 0.6) else rng.randint(0, levels - 1)
-            choices.append([n, gen_parser(rng, sub_levels, level + 1, p_dcf)])
+            choices.append([n, gen_parser(rng, sub_levels, level + 1, p_dcf, p_alias)])
         rng.shuffle(choices)
+        if p_alias:
+            with_alias = []
+            for n, c in choices:
+                with_alias.append([n, c])
+                if rng.random() < p_alias:
+                    ca = copy.deepcopy(c)
+                    ca["alias_of"] = n
+                    with_alias.append([ALIASES[n], ca])
+            choices = with_alias
         spec["sub"] = {"dest": DESTS[level % len(DESTS)] if rng.random() < 0.7 else rng.choice(DESTS), "required": rng.random() < 0.6, "choices": choices}
     if rng.random() < p_dcf:
         spec["dcf"] = gen_cfg_tree(rng, spec, 0.5, 0.25, 0.5, 0.3)
     return spec
 
 
-def gen_spec(rng, p_dcf=0.2):
+def gen_spec(rng, p_dcf=0.2, p_alias=None):
+    if p_alias is None:
+        p_alias = 0.5 if rng.random() < 0.12 else 0.0
+    if p_alias:
+        # trees with aliases: no default config files, no environment parsing (variable names and `parent_parsers` keys follow the
+        # NAME of a sub-parser, whatever alias selected it: that is C17's layer model, kept apart from the alias question)
+        spec = gen_parser(rng, rng.choice([1, 1, 2, 2]), 0, 0.0, p_alias)
+        spec["default_env"] = False
+        spec["env_how"] = "ctor"
+        spec["aliases"] = True
+        return spec
     spec = gen_parser(rng, rng.choice([1, 1, 2, 2, 2, 3, 3]), 0, p_dcf)
     spec["default_env"] = rng.random() < 0.4
     # how environment parsing is switched on: constructor argument, `parser.default_env = True` AFTER the tree is built,
@@ -217,6 +256,8 @@ def gen_env(rng, spec, density=0.3):
 
 def gen_input(rng, spec):
     kind = rng.choice(["args"] * 6 + ["string", "string", "object", "object", "env", "path"])
+    if spec.get("aliases") and kind == "env":
+        kind = "object"
     inp = {"kind": kind, "env": {}}
     if spec["default_env"] or kind == "env":
         inp["env"] = gen_env(rng, spec, rng.choice([0.15, 0.3, 0.5]))
@@ -346,8 +387,16 @@ class Built:
         sc = parser.add_subcommands(required=spec["sub"]["required"], dest=spec["sub"]["dest"])
         kids = []
         for n, c in spec["sub"]["choices"]:
+            if c.get("alias_of"):
+                continue
+            aliases = tuple(a for a, ca in spec["sub"]["choices"] if ca.get("alias_of") == n)
             q = self._mk(c, path + (n,), False)
-            sc.add_subcommand(n, q)
+            if aliases:
+                sc.add_subcommand(n, q, aliases=aliases)
+                for a in aliases:
+                    self.by_path[path + (a,)] = q
+            else:
+                sc.add_subcommand(n, q)
             kids.append((q, c, path + (n,)))
         for q, c, pth in kids:
             self._subs(q, c, pth)
@@ -449,7 +498,9 @@ def install_recorder():
                 raise
             finally:
                 fr["in_layer"] = False
-            dotted = fr["prefix"] + str(getattr(self, "subcommand", "?"))
+            # the key under which handle_subcommands stores this layer: `key = prefix + subcommand` (the name OR ALIAS in the
+            # configuration), which is also the key it pushed on the parent_parsers stack
+            dotted = stack[-1][0] if stack else fr["prefix"] + str(getattr(self, "subcommand", "?"))
             fr["call"]["layers"][dotted] = enc(r)
             fr["call"]["layer_meta"][dotted] = {"fn": fn_name, "path": rec.built.by_id.get(id(self)), "ctx": stack}
             return r
@@ -477,8 +528,10 @@ def flat_argv(av, built):
     return out
 
 
-def real_run(spec, inp, record=True):
-    """parse with the real implementation; returns {"res": {"ok": wire}|{"err":..}, "calls", "gets", "warnings"}"""
+def real_run(spec, inp, record=True, reparse=False):
+    """parse with the real implementation; returns {"res": {"ok": wire}|{"err":..}, "calls", "gets", "warnings"};
+    `reparse`: a successful result is dumped and the dump parsed again by the same parser in the same environment
+    (`out["reparse"]`: wire of the second result or the error; `out["dump"]`: the document)"""
     for k in list(os.environ):
         if k.startswith("APP_"):
             del os.environ[k]
@@ -510,6 +563,16 @@ def real_run(spec, inp, record=True):
                 else:
                     raise MachineryError("unknown kind " + kind)
                 out["res"] = {"ok": enc(r)}
+                if reparse:
+                    if record:
+                        rec.__exit__()
+                        record = False
+                    try:
+                        doc = p.dump(r)
+                        out["dump"] = doc
+                        out["reparse"] = {"ok": enc(p.parse_string(doc, **kw))}
+                    except Exception as ex:  # noqa: BLE001 - the error class is the observation
+                        out["reparse"] = err_of(ex)
             except MachineryError:
                 raise
             except SystemExit as ex:
@@ -1336,7 +1399,7 @@ def shrink_case(spec, inp, still_bad, budget=400):
 
 def check_case(ctx, spec, inp, origin, stats):
     """run one (spec, input): record, correspond, judge.  Returns the requests for the model with their expectations."""
-    real = real_run(spec, inp)
+    real = real_run(spec, inp, reparse=True)
     reqs = []
     seen_layers = set()
     # (a) captured handle_subcommands calls
@@ -1468,11 +1531,19 @@ def run(ctx: Ctx):
     dbad = direct_stage(ctx, stats)
     dbad += exhaustive_get_stage(ctx, stats)
     dbad += env_names_stage(ctx)
+    dbad += sources_stage(ctx, stats)
+    construction_stage(ctx)
 
     # ---------------- oracle
     for idx, (spec, inp, origin, real) in enumerate(judged):
         devs, ref = judge(spec, inp, real["res"])
         ctx.count()
+        if not devs and "reparse" in real:
+            # (iv) only for results the reference accepts: the dump parsed again
+            rdevs = reparse_devs(spec, inp, real)
+            ctx.count()
+            ctx.hist("reparse", "same" if not rdevs else ("known-hazard" if rdevs[0][1] else "DEVIATION"))
+            devs = devs + rdevs
         if ref[0] == "ambiguous":
             stats["ambiguous"] += 1
         elif ref[0] == "ok-open":
@@ -1488,8 +1559,8 @@ def run(ctx: Ctx):
     ctx.replay_fixed_demos()
     for f in ctx.open_findings():
         w = f["witness"]
-        real = real_run(w["spec"], w["input"], record=False)
-        devs, _ = judge(w["spec"], w["input"], real["res"])
+        real = real_run(w["spec"], w["input"], record=False, reparse=True)
+        devs, _ = judge_all(w["spec"], w["input"], real)
         if devs:
             ctx.known(f["id"], f["description"])
         else:
@@ -1507,6 +1578,14 @@ def run(ctx: Ctx):
     ctx.extra["stats"] = stats
     ctx.extra["cases"] = len(cases)
     ctx.extra["direct_disagreements"] = dbad
+
+
+def judge_all(spec, inp, real):
+    """the reference's verdict on the result and, for an accepted result, on the re-parse of its dump"""
+    devs, ref = judge(spec, inp, real["res"])
+    if not devs:
+        devs = devs + reparse_devs(spec, inp, real)
+    return devs, ref
 
 
 def dev_class(desc):
@@ -1527,13 +1606,13 @@ def report(ctx, spec, inp, devs, origin):
         ctx._c17_reported[cls] = ctx._c17_reported.get(cls, 0) + 1
 
         def still(s2, i2, cls=cls):
-            r2 = real_run(s2, i2, record=False)
-            d2, _ = judge(s2, i2, r2["res"])
+            r2 = real_run(s2, i2, record=False, reparse=True)
+            d2, _ = judge_all(s2, i2, r2)
             return any(dev_class(d) == cls and not (f and ctx.is_open(f)) for d, f in d2)
 
         s2, i2 = shrink_case(spec, inp, still)
-        r2 = real_run(s2, i2, record=False)
-        d2, _ = judge(s2, i2, r2["res"])
+        r2 = real_run(s2, i2, record=False, reparse=True)
+        d2, _ = judge_all(s2, i2, r2)
         d2 = [d for d, f in d2 if not (f and ctx.is_open(f))]
         ctx.violation("the parse result deviates from the selection rule: %s" % (d2[0] if d2 else desc),
                       {"kind": "oracle", "origin": origin, "spec": s2, "input": i2, "result": r2["res"], "deviations": d2})
@@ -1742,6 +1821,8 @@ def direct_stage(ctx, stats):
         if spec is None or i % 3 == 0:
             spec = gen_spec(ctx.rng, ctx.rng.choice([0.0, 0.2]))
         d = gen_direct(ctx.rng, spec)
+        if spec.get("aliases") and d["mode"] == "env":
+            d["mode"] = "dflt"   # variable names follow the NAME of a sub-parser: trees with aliases are run without environment parsing
         env = gen_env(ctx.rng, spec, 0.3) if d["mode"] == "env" else {}
         calls, gets, nwarn = direct_run(spec, d, env)
         ctx.hist("direct_mode", d["mode"])
@@ -1783,6 +1864,200 @@ def direct_stage(ctx, stats):
     return bad
 
 
+# ====================================================================== (iv) the dump of a result parsed again
+def selection_of(spec, plain):
+    """the selected subcommand names down the tree of a result (plain dict)"""
+    out, node, cur = [], spec, plain
+    while node["sub"] and isinstance(cur, dict):
+        n = cur.get(node["sub"]["dest"])
+        if n is None or n not in dict(node["sub"]["choices"]):
+            break
+        out.append(n)
+        node, cur = dict(node["sub"]["choices"])[n], cur.get(n)
+    return out
+
+
+def reparse_hazard(spec, inp, first):
+    """signature of the open finding F_REPARSE: `dump` omits the subcommand key, so the re-parse selects by "first with
+    settings" among the dumped section and whatever defaults and environment hold or NAME: (a) a default config file (get_defaults
+    names the first subcommand it has a section for, or the one it names) or, with environment parsing, a subcommand / config
+    variable; (b) the section of a selected subcommand holds no value at all (a sub-parser without options and without a selected
+    subcommand of its own): `merge_config` copies leaves, the empty section does not arrive, nothing is selected"""
+    node, cur = spec, first
+    while node["sub"] and isinstance(cur, dict):
+        n = cur.get(node["sub"]["dest"])
+        if n is None or n not in dict(node["sub"]["choices"]):
+            break
+        sect = {k: v for k, v in (cur.get(n) or {}).items() if not (dict(node["sub"]["choices"])[n]["sub"] and k == dict(node["sub"]["choices"])[n]["sub"]["dest"])}
+        if not has_leaf(strip_keys(sect)) or not strip_keys(sect):
+            return True
+        node, cur = dict(node["sub"]["choices"])[n], cur.get(n)
+    if has_dcf(spec):
+        return True
+    if spec.get("default_env") or inp["kind"] == "env":
+        env = inp.get("env") or {}
+        for path in all_paths(spec):
+            node = node_at(spec, path)
+            if node["sub"] and env_name(path, node["sub"]["dest"]) in env:
+                return True
+            if node["cfg"] and env_name(path, "cfg") in env:
+                return True
+    return False
+
+
+def strip_keys(t, drop=("cfg",)):
+    if isinstance(t, dict):
+        return {k: strip_keys(v, drop) for k, v in t.items() if k not in drop}
+    return t
+
+
+def reparse_devs(spec, inp, real):
+    """(iv): parse_string(dump(result)) by the same parser in the same environment must select the same subcommand at every level
+    and hold the same settings (theorems C17_reparse_dump_same_selection / C17_exactly_one: the dump holds exactly one section)"""
+    if "reparse" not in real or "ok" not in real["res"]:
+        return []
+    first = wire_to_plain(real["res"]["ok"])
+    fid = F_REPARSE if reparse_hazard(spec, inp, first) else None
+    rp = real["reparse"]
+    if "ok" not in rp:
+        return [("the dump of a successful result does not parse again: %s" % json.dumps(rp)[:160], fid)]
+    second = wire_to_plain(rp["ok"])
+    s1, s2 = selection_of(spec, first), selection_of(spec, second)
+    if s1 != s2:
+        return [("the dump of a result that selected %s parses again to the selection %s" % ("/".join(s1) or "<none>", "/".join(s2) or "<none>"), fid)]
+    if strip_keys(first) != strip_keys(second):
+        return [("the dump of a result parses again to different settings", fid)]
+    return []
+
+
+# ====================================================================== sources loaded on their own: theorem statements on the real code
+def prune_leafless(t):
+    """`merge_config` copies leaves: a section without leaves does not arrive"""
+    if isinstance(t, dict):
+        return {k: prune_leafless(v) for k, v in t.items() if has_leaf(v)}
+    return t
+
+
+def sources_stage(ctx, stats):
+    """`ActionConfigFile.apply_config` of the real code on generated documents vs the PREDICATES of the session-2 theorems
+    (driver op "losses"): a section survives iff not `loses` (C17_early_selection_exact); a `quietDeep` document arrives
+    verbatim at every depth (C17_quiet_source_verbatim); the loaded tree itself vs `loadCfgArg`"""
+    from jsonargparse import ActionConfigFile, Namespace
+    from jsonargparse._common import parser_context
+
+    n = ctx.budget(260, 5000) * (2 if ctx.search_boost > 1 else 1)
+    reqs, reals, metas = [], [], []
+    spec = None
+    for i in range(n):
+        if spec is None or i % 3 == 0:
+            spec = gen_spec(ctx.rng, 0.0, 0.0)
+            spec["default_env"] = False
+            spec["cfg"] = True
+        tree = gen_cfg_tree(ctx.rng, spec, 0.4, ctx.rng.choice([0.3, 0.7]), 0.9, ctx.rng.choice([0.4, 0.8]))
+        built = Built(spec)
+        try:
+            cfg = Namespace()
+            with warnings.catch_warnings():
+                warnings.simplefilter("ignore")
+                try:
+                    with parser_context(parent_parser=built.root):   # as inside parse_args
+                        ActionConfigFile.apply_config(built.root, cfg, "cfg", json.dumps(tree))
+                    real = {"ok": strip_keys(wire_to_plain(enc(cfg)))}
+                except Exception as ex:  # noqa: BLE001
+                    real = err_of(ex)
+        finally:
+            built.close()
+        reqs.append({"op": "losses", "p": p_wire(spec), "tree": tree_to_wire(tree)})
+        reals.append(real)
+        metas.append((spec, tree))
+    answers = model_answers(ctx, [(r, None, "losses", None) for r in reqs])
+    bad = 0
+    nq = nl = 0
+    if answers is not None:
+        for rq, real, (spec, tree), ans in zip(reqs, reals, metas, answers):
+            ctx.count()
+            why = None
+            names = [x for x, _ in spec["sub"]["choices"]] if spec["sub"] else []
+            if "ok" in real:
+                given = [x for x in names if isinstance(tree.get(x), dict) and has_leaf(tree[x])]
+                survive = [x for x in given if isinstance(real["ok"].get(x), dict)]
+                expect = [x for x in given if x not in ans["lost"]]
+                nl += bool(ans["lost"])
+                if survive != expect:
+                    why = "sections that survive apply_config: %s, the exact condition of C17_early_selection_exact gives %s" % (survive, expect)
+                elif ans["quietDeep"]:
+                    nq += 1
+                    if real["ok"] != prune_leafless(tree):
+                        why = "a quiet document does not arrive verbatim (C17_quiet_source_verbatim)"
+                if why is None and ("ok" not in ans["loaded"] or prune_leafless(wire_to_plain(ans["loaded"]["ok"], False)) != real["ok"]):
+                    why = "loadCfgArg of the model differs from apply_config"
+            elif "ok" in ans["loaded"]:
+                why = "apply_config fails (%s), loadCfgArg succeeds" % json.dumps(real)[:120]
+            if why:
+                bad += 1
+                if bad <= 2:
+                    ctx.tie_break("correspondence Subcmd (sources loaded on their own: theorem predicates vs apply_config) disagrees",
+                                  json.dumps({"why": why, "spec": spec, "tree": tree, "real": real, "model": ans}, ensure_ascii=True)[:1900])
+    ctx.extra["sources_stage"] = {"cases": len(reqs), "quiet_documents": nq, "documents_that_lose_a_section": nl, "disagreements": bad}
+    return bad
+
+
+# ====================================================================== construction of the tree (add_subcommands / add_subcommand)
+def construction_stage(ctx):
+    """what `wf` of the model assumes is what the constructors enforce: a second add_subcommands is rejected, a name equal to the
+    subcommands dest is rejected, levels must be added in level order, aliases are further keys of the SAME parser (declaration order:
+    name, its aliases, next name), `dest=`/`required=` are stored as given"""
+    from jsonargparse import ArgumentParser
+
+    def fresh():
+        return ArgumentParser(exit_on_error=False, prog="app")
+
+    problems = []
+    p = fresh()
+    sc = p.add_subcommands(required=False, dest="mode")
+    try:
+        p.add_subcommands(dest="other")
+        problems.append("a second add_subcommands call on one parser is accepted")
+    except Exception:  # noqa: BLE001 - any rejection
+        pass
+    try:
+        sc.add_subcommand("mode", fresh())
+        problems.append("a subcommand called like the subcommands dest is accepted")
+    except ValueError:
+        pass
+    inner = fresh()
+    inner.add_subcommands(dest="cmd")
+    try:
+        sc.add_subcommand("deep", inner)
+        problems.append("a parser that already has subcommands is accepted as a subcommand (level order)")
+    except ValueError:
+        pass
+    a, b = fresh(), fresh()
+    sc.add_subcommand("fit", a, aliases=("f", "train"))
+    sc.add_subcommand("test", b)
+    if list(sc.choices.keys()) != ["fit", "f", "train", "test"] or sc.choices["f"] is not a or sc.choices["train"] is not a:
+        problems.append("aliases are not further keys of the same parser in declaration order: %s" % list(sc.choices.keys()))
+    if sc.dest != "mode" or sc._required is not False or "mode" in p.required_args:
+        problems.append("dest/required of add_subcommands are not stored as given")
+    p2 = fresh()
+    sc2 = p2.add_subcommands()
+    if sc2.dest != "subcommand" or sc2._required is not True or "subcommand" not in p2.required_args:
+        problems.append("defaults of add_subcommands are not dest='subcommand', required=True")
+    for w in problems[:2]:
+        ctx.violation("construction of a subcommand tree: " + w, {"kind": "construction", "what": w})
+    ctx.count(8)
+    ctx.extra["construction_stage"] = {"checks": 8, "problems": problems}
+    # observation (minor, reported by the builder): an ALIAS equal to the subcommands dest is accepted although the NAME is rejected
+    p3 = fresh()
+    sc3 = p3.add_subcommands(dest="cmd")
+    try:
+        sc3.add_subcommand("a", fresh(), aliases=("cmd",))
+        ctx.extra["construction_stage"]["alias_equal_to_dest_accepted"] = True
+    except ValueError:
+        ctx.extra["construction_stage"]["alias_equal_to_dest_accepted"] = False
+    return len(problems)
+
+
 def replay(ctx: Ctx, body):
     repo_python_path()
     rp = body["replay"]
@@ -1799,9 +2074,12 @@ def replay(ctx: Ctx, body):
     if "spec" not in rp:
         print(json.dumps(rp)[:2000])
         return 1
-    real = real_run(rp["spec"], rp["input"], record=False)
-    devs, ref = judge(rp["spec"], rp["input"], real["res"])
+    real = real_run(rp["spec"], rp["input"], record=False, reparse=True)
+    devs, ref = judge_all(rp["spec"], rp["input"], real)
     print("reference:", ref[0])
     print("real result:", json.dumps(wire_to_plain(real["res"]["ok"]) if "ok" in real["res"] else real["res"]))
+    if "reparse" in real:
+        print("dump:", json.dumps(real.get("dump")))
+        print("dump parsed again:", json.dumps(wire_to_plain(real["reparse"]["ok"]) if "ok" in real["reparse"] else real["reparse"]))
     print("deviations:", [d for d, _ in devs])
     return 1 if devs else 0
